@@ -994,18 +994,18 @@ func TestVerifC31PermutedHellos(t *testing.T) {
 		}
 		// valid encodings the library's own marshaller never produces: minimal bodies of known extensions
 		minimal := map[uint16][]byte{
-			51:     {0, 0},                   // key_share with an empty client_shares vector (RFC 8446 4.2.8: asks for a HelloRetryRequest)
-			35:     {},                       // empty session_ticket
-			0xff01: {0},                      // renegotiation_info with empty renegotiated_connection
-			18:     {},                       // signed_certificate_timestamp request
-			5:      {1, 0, 0, 0, 0},          // status_request: ocsp, no responder ids, no extensions
-			16:     {0, 3, 2, 'h', '2'},      // one ALPN protocol
-			43:     {2, 3, 4},                // one supported version
-			45:     {1, 1},                   // one PSK key exchange mode
-			10:     {0, 2, 0, 29},            // one group
-			13:     {0, 2, 4, 3},             // one signature algorithm
-			11:     {1, 0},                   // one point format
-			23:     {},                       // extended_master_secret
+			51:     {0, 0},              // key_share with an empty client_shares vector (RFC 8446 4.2.8: asks for a HelloRetryRequest)
+			35:     {},                  // empty session_ticket
+			0xff01: {0},                 // renegotiation_info with empty renegotiated_connection
+			18:     {},                  // signed_certificate_timestamp request
+			5:      {1, 0, 0, 0, 0},     // status_request: ocsp, no responder ids, no extensions
+			16:     {0, 3, 2, 'h', '2'}, // one ALPN protocol
+			43:     {2, 3, 4},           // one supported version
+			45:     {1, 1},              // one PSK key exchange mode
+			10:     {0, 2, 0, 29},       // one group
+			13:     {0, 2, 4, 3},        // one signature algorithm
+			11:     {1, 0},              // one point format
+			23:     {},                  // extended_master_secret
 		}
 		nMin := 0
 		for i := range exts {
